@@ -614,6 +614,8 @@ def oracle(c, o):
             else:
                 got[i] |= got[s[2]]
             last[i] = (r["dag"], r["orph"], r["read"])
+            if r.get("size") != len(r["dag"]) + len(r["orph"]):
+                v.append(("crdt-size-wrong", "size() = %s with %d dag nodes and %d orphans" % (r.get("size"), len(r["dag"]), len(r["orph"]))))
             nodes = {nh[j][0]: nh[j][1] for j in got[i]}
             dag, heads = lfp_read(nodes)
             if sorted(dag) != r["dag"] or sorted(set(nodes) - dag) != r["orph"] or heads != [x[0] for x in r["read"]]:
@@ -827,7 +829,7 @@ def c_base(r):
     return "(register_new %s %s %s)" % (cN(r["owner"]), cN(r["meta"]), c_perms(r["perms"]))
 
 
-def model_term(c, o):
+def model_term(c, o, diag=False):
     if "panic" in o or "error" in o:
         return "false"
     rk = ranks(o)
@@ -857,7 +859,8 @@ def model_term(c, o):
             steps.append("CApply %d (po %s)" % (s[1], cN(s[2])) if s[0] == "apply" else "CMerge %d %d" % (s[1], s[2]))
             obs.append("mkcobs %s %s %s %s" % (c_res(r), clist([cN(rk[h]) for h in r["dag"]]),
                                               clist([cN(rk[h]) for h in r["orph"]]), c_read(r["read"], rk, c, o)))
-        t += " agree_chist HT %s %s %s" % (clist(["crdt_new %s" % c_addr(a) for a in c["crdts"]]), clist(steps), clist(obs))
+        t += " %s HT %s %s %s%s" % ("first_bad_chist" if diag else "agree_chist",
+                                    clist(["crdt_new %s" % c_addr(a) for a in c["crdts"]]), clist(steps), clist(obs), " 0" if diag else "")
         return "(" + t + ")"
     bases = [c_base(r) for r in c["regs"]]
     regs = []
@@ -892,9 +895,15 @@ def model_term(c, o):
         elif k == "client":
             steps.append("SClient %d" % s[1])
         obs.append("mkobs %s %s %s" % (c_res(r), order(r), c_read(r.get("read", []), rk, c, o)))
-    t += " agree_hist HT sym_d64 %s\n %s\n %s" % (
-        clist([init_term(k, i) for k, i in enumerate(c["replicas"])]), clist(steps), clist(obs))
+    t += " %s HT sym_d64 %s\n %s\n %s%s" % (
+        "first_bad_hist" if diag else "agree_hist",
+        clist([init_term(k, i) for k, i in enumerate(c["replicas"])]), clist(steps), clist(obs), " 0" if diag else "")
     return "(" + t + ")"
+
+
+def show(c, o):
+    """index of the first step on which the model disagrees with the implementation"""
+    return model_term(c, o, diag=True)
 
 
 def nontrivial(c, o):
@@ -914,6 +923,26 @@ def nontrivial(c, o):
 
 
 def run(ctx):
+    import copy
+    for attempt in range(3):
+        snap = (list(ctx.impl_viol), list(ctx.tie_breaks), copy.deepcopy(ctx.cov), set(ctx._nontrivial))
+        run_once(ctx)
+        # other checks running at the same time may regenerate coq/gen/Consts.v (and rebuild its .vo) between
+        # this run's proof build and its case evaluation; coqc then refuses the stale model library.  That is a
+        # race between concurrent runs, not a finding: rebuild and evaluate again.
+        race = [t for t in ctx.tie_breaks[len(snap[1]):]
+                if (t[0] == "model-eval" and "inconsistent assumptions" in str(t[2])) or
+                   (t[0] == "harness-build" and "failed to load manifest for workspace member" in str(t[2])
+                    and "crates/c06`" not in str(t[2]))]
+        if not race or attempt == 2:
+            return
+        ctx.log("a concurrent run rebuilt the model libraries / is adding another harness crate; repeating the run")
+        import time
+        time.sleep(20)
+        ctx.impl_viol, ctx.tie_breaks, ctx.cov, ctx._nontrivial = snap[0], snap[1], snap[2], snap[3]
+
+
+def run_once(ctx):
     ctx.regen_consts()
     ctx.prove("props/C06.v", THEOREMS, extra_trusted=[
         "models coq/model/Register.v and coq/model/MerkleReg.v (hand-written) tied to ant-registers and crdts-7.3.2 by "
@@ -924,7 +953,7 @@ def run(ctx):
         "symbolic BLS signatures; abstract collision-free SHA3 node hash; abstract 64-bit signing digest"])
     binary = ctx.cargo_build("c06")
     cases = ctx.corpus() + ([] if ctx.replay else gen(ctx))
-    ctx.pipeline(cases, binary, oracle, model_term, IMPORTS, nontrivial=nontrivial, shard_size=12,
+    ctx.pipeline(cases, binary, oracle, model_term, IMPORTS, nontrivial=nontrivial, show=show, shard_size=12,
                  relation="SignedRegister::{add_op,merge,verified_merge,verify,verify_with_address,ops} / "
                           "RegisterCrdt::{apply_op,merge,read} == Register.{add_op,merge,verified_merge_in,verify_in,"
                           "client_build} / MerkleReg.{mr_apply,mr_merge,mr_read} step by step")
